@@ -1,17 +1,18 @@
 #!/usr/bin/env python3
 """false-alarm test: apply a behaviour-preserving refactoring to a scratch copy and run every check; exit 1 from a check is a FALSE ALARM"""
 import os, subprocess, sys, shutil
-sys.path.insert(0, '/verif')
+ROOT = os.path.dirname(os.path.dirname(os.path.abspath(__file__)))
+sys.path.insert(0, ROOT)
 from vf.props import PROPS
-scratch = '/root/scratch/refactor-repo'
+scratch = '/root/scratch/refactor-repo-%d' % os.getpid()
 bad = 0
 for r in sys.argv[1:]:
     subprocess.run(['rsync', '-a', '--delete', '--exclude', 'target', '--exclude', '.git', '/repo/', scratch + '/'], check=True)
-    if subprocess.run(['patch', '-p1', '-s', '-i', '/verif/refactors/%s.diff' % r], cwd=scratch).returncode:
+    if subprocess.run(['patch', '-p1', '-s', '-i', ROOT + '/refactors/%s.diff' % r], cwd=scratch).returncode:
         print(r, 'patch does not apply'); continue
     for pid in sorted(PROPS):
         env = dict(os.environ, VERIF_REPO=scratch, VERIF_DEV_SKIP_KANI='1')
-        p = subprocess.run(['/verif/check', pid], env=env, stdout=subprocess.PIPE, stderr=subprocess.STDOUT, text=True)
+        p = subprocess.run([ROOT + '/check', pid], env=env, stdout=subprocess.PIPE, stderr=subprocess.STDOUT, text=True)
         tag = {0: 'ok', 1: 'FALSE ALARM', 2: 'undecided'}.get(p.returncode, '?')
         last = [l for l in p.stdout.strip().split('\n') if l.startswith(('UNDECIDED', 'VIOLATION'))][:2]
         print('%-3s %-4s %-11s %s' % (r, pid, tag, ' | '.join(x[:160] for x in last)))
